@@ -27,6 +27,7 @@ const PARSEABLE: [&str; 16] = [
 ];
 
 fn setup(ctx: &mut Ctx) {
+    ctx.floor("record-sequences", 500);
     for n in PARSEABLE {
         for e in Enc::ALL {
             ctx.floor(&format!("decoded:{}:{}", n, e.name()), 20);
@@ -140,6 +141,73 @@ fn roundtrip<P: ParseAt + Fields, E: EndianParse>(ctx: &mut Ctx, e: E, enc: Enc,
     }
     if P::size_for(class) != size {
         ctx.violation(&format!("{}:{}:size_for", P::NAME, enc.name()), format!("{}::size_for({:?}) = {} but the ABI size is {}", P::NAME, class, P::size_for(class), size));
+    }
+    if ctx.rng.chance(1, 6) {
+        sequence::<P, E>(ctx, e, enc);
+    }
+}
+
+/// A run of consecutive records read through the crate's table and iterator, however the iterator is driven (next, nth
+/// on a fresh and on a used iterator, skip, step_by): item i must always be the decoding of the i-th ABI-sized record.
+fn sequence<P: ParseAt + Fields, E: EndianParse>(ctx: &mut Ctx, e: E, enc: Enc) {
+    use elf::parse::{ParsingIterator, ParsingTable};
+    let n = 2 + ctx.rng.usize_below(5);
+    let recs: Vec<Rec> = (0..n).map(|_| gen_rec(&mut ctx.rng, P::ST, enc.c64)).collect();
+    let mut buf = Vec::new();
+    for r in &recs {
+        r.encode(enc, &mut buf);
+    }
+    let class = class_of(enc);
+    ctx.count("record-sequences");
+    let k = ctx.rng.usize_below(n);
+    let j = ctx.rng.usize_below(n);
+    let step = 2 + ctx.rng.usize_below(2);
+    // (mode, yielded items, indices they must be the records of)
+    let mut runs: Vec<(&str, Vec<P>, Vec<usize>)> = Vec::new();
+    let fresh = || ParsingIterator::<E, P>::new(e, class, &buf);
+    runs.push(("next", fresh().take(n + 2).collect(), (0..n).collect()));
+    runs.push(("table.iter", ParsingTable::<E, P>::new(e, class, &buf).iter().take(n + 2).collect(), (0..n).collect()));
+    runs.push(("fresh-nth", fresh().nth(k).into_iter().collect(), vec![k]));
+    {
+        // a used iterator: j x next(), then nth(k), then the rest
+        let mut it = fresh();
+        let mut got: Vec<P> = Vec::new();
+        let mut want: Vec<usize> = Vec::new();
+        for i in 0..j {
+            got.extend(it.next());
+            want.push(i);
+        }
+        if j + k < n {
+            got.extend(it.nth(k));
+            want.push(j + k);
+            got.extend(it.by_ref().take(n + 2));
+            want.extend(j + k + 1..n);
+        }
+        runs.push(("used-nth", got, want));
+    }
+    {
+        let mut it = fresh();
+        let mut got: Vec<P> = Vec::new();
+        got.extend(it.next());
+        got.extend(it.skip(k).take(n + 2));
+        let mut want = vec![0usize];
+        want.extend(1 + k..n);
+        runs.push(("used-skip", got, want));
+    }
+    runs.push(("step_by", fresh().step_by(step).take(n + 2).collect(), (0..n).step_by(step).collect()));
+    runs.push(("table.iter.step_by", ParsingTable::<E, P>::new(e, class, &buf).iter().step_by(step).take(n + 2).collect(), (0..n).step_by(step).collect()));
+    for (mode, got, want) in runs {
+        ctx.eval();
+        let bad = if got.len() != want.len() {
+            Some(format!("{} items, expected records {:?}", got.len(), want))
+        } else {
+            got.iter().zip(want.iter()).find_map(|(g, w)| mismatch(&g.fields(), &recs[*w]).map(|m| format!("item for record {w}: {m}")))
+        };
+        if let Some(m) = bad {
+            ctx.set_input(&buf);
+            ctx.violation(&format!("{}:sequence:{mode}", P::NAME), format!("{} x{n} ({}), driven by {mode} (j={j}, k={k}, step={step}): {m}", P::NAME, enc.name()));
+            return;
+        }
     }
 }
 
@@ -391,7 +459,7 @@ fn run(ctx: &mut Ctx, si: usize, case: u64) {
             // ELF32_ST_BIND(i) = i >> 4, ELF32_ST_TYPE(i) = i & 0xf, ELF32_ST_VISIBILITY(o) = o & 0x3
             let info = case as u8;
             ctx.sample(|| format!("st_info={info:#x} x all 256 st_other"));
-            for other in 0..=255u8 {
+            for other in (0..=255u8).step_by(if ctx.tier == Tier::Miri { 17 } else { 1 }) {
                 ctx.eval();
                 let s = Symbol { st_name: 0, st_shndx: 1, st_info: info, st_other: other, st_value: 0, st_size: 0 };
                 ctx.nontrivial(((info as u64) << 8) | other as u64);
@@ -402,7 +470,8 @@ fn run(ctx: &mut Ctx, si: usize, case: u64) {
         }
         4 => {
             ctx.sample(|| "is_undefined over all 65536 st_shndx".to_string());
-            for shndx in 0..=0xffffu32 {
+            let stride = if ctx.tier == Tier::Miri { 257 } else { 1 };
+            for shndx in (0..=0xffffu32).step_by(stride) {
                 ctx.eval();
                 let s = Symbol { st_name: 0, st_shndx: shndx as u16, st_info: 0, st_other: 0, st_value: 0, st_size: 0 };
                 ctx.nontrivial(0x1_0000 | shndx as u64);
@@ -419,7 +488,8 @@ fn run(ctx: &mut Ctx, si: usize, case: u64) {
             let per = 0x10000 / nchunks;
             let lo = case as u32 * per;
             ctx.sample(|| format!("VersionIndex {lo:#x}..{:#x}", lo + per));
-            for v in lo..lo + per {
+            let stride = if ctx.tier == Tier::Miri { 251 } else { 1 };
+            for v in (lo..lo + per).step_by(stride) {
                 ctx.eval();
                 let vi = VersionIndex(v as u16);
                 ctx.nontrivial(0x2_0000 | v as u64);
